@@ -1176,6 +1176,40 @@ package decimal
 //@   hint[after:set#1] bind(grem, 0)
 //@   tags safety C04,C14
 
+// Int: accuracy, special values and the selection of the integer part are proved; the
+// magnitude handed to math/big is gN = V2(decToNat(...)), and decToNat (radix conversion
+// sized by a float64 estimate) is assumed to return the value of its argument.
+//@ extern (*math/big.Int).SetInt64 (z, x)
+//@   ensures[ret] result == z
+//@ extern (*math/big.Int).SetBits (z, abs)
+//@   ensures[ret] result == z
+//@ extern (*math/big.Int).Neg (z, x)
+//@   ensures[ret] result == z
+
+//@ func decToNat(z []big.Word, x dec) []big.Word
+//@   requires[words] wordsok(x) && natnorm(x)
+//@   ensures[value,C14] V2(result) == old(V(x))
+//@   ensures[operand,C09] samewords(x, old(x))
+//@   status assumed radix conversion; the float64 size estimate is part of the assumption (bounded: big-conversions)
+
+//@ func (x *Decimal) Int(z *big.Int) (*big.Int, Accuracy)
+//@   requires[wf] opnd(x)
+//@   ghost gT, grem, gmp, gN
+//@   ensures[zero,C14] x.form == zero ==> result1 == 0 && result0 != nil
+//@   ensures[inf,C14] x.form == inf ==> result0 == nil && result1 == (x.neg ? 1 : 0 - 1)
+//@   ensures[frac,C14] x.form == finite && x.exp <= 0 ==> result1 == (x.neg ? 1 : 0 - 1) && result0 != nil
+//@   ensures[trunc,C14] x.form == finite && 1 <= x.exp ==> gN == gT && result0 != nil &&
+//@        (x.exp >= 19*len(x.mant) ==> gT == V(x.mant)*p10(x.exp - 19*len(x.mant)) && grem == 0) &&
+//@        (x.exp < 19*len(x.mant) ==> V(x.mant) == gT*p10(19*len(x.mant) - x.exp) + grem && 0 <= grem && grem < p10(19*len(x.mant) - x.exp))
+//@   ensures[acc,C14] x.form == finite && 1 <= x.exp ==> tz(x.mant, 19*len(x.mant) - gmp) && result1 == (gmp <= x.exp ? 0 : (x.neg ? 1 : 0 - 1))
+//@   ensures[same,C14] z != nil && x.form != inf ==> result0 == z
+//@   ensures[operands,C09,C18] unchanged(x)
+//@   hint[after:intMant#1] bind(gT, V(result))
+//@   hint[after:intMant#1] bind(grem, ghost_grem)
+//@   hint[after:MinPrec#1] bind(gmp, result)
+//@   hint[after:decToNat#1] bind(gN, V2(result))
+//@   tags safety C04,C14
+
 // Uint64: truncation toward zero with saturation; gT is the integer part of |x|.
 //@ func (x *Decimal) Uint64() (uint64, Accuracy)
 //@   requires[wf] opnd(x)
